@@ -4,4 +4,17 @@ CLAIMS = {
     text="All CFG paths of try_play and play are enumerated symbolically over the compiler's MIR: the unchecked play is reached only under is_legal(self, mv) = true on the same operands, the Err path performs no write through self and lends it to nothing mutably, play diverges exactly on the Err result. This is the complete structural content of the property; what 'legal' means is C04.",
     note="Trusts rustc's MIR and callee resolution; is_legal's own correctness is C04's claim, play_unchecked's is C02's.",
     technique="static analysis: symbolic path enumeration over resolved MIR (dominance of the guard, write-freedom of the Err path)"),
+
+ "C05": dict(level="proof",
+    text="Complete over its domain: every cell of the seven geometry tables (8576 cells, as const-evaluated by rustc) equals an independent geometric definition and every accessor is shown to be a pure index of that table; the slider index expression reconstructed from the MIR of the active back end is evaluated over all 107648 (square, relevant-subset) pairs, stays in bounds and selects the ray-walk result, and a known-bits abstract evaluation shows occupancy bits outside the relevance mask cannot influence it (hence all 2^64 occupancies); pawn pushes are proved per (square, colour) with all but the two relevant occupancy bits unknown. Thorough repeats the slider audit for the PEXT back end.",
+    note="Trusts rustc const evaluation, cargo's run of build.rs for the generated table, the _pext_u64 model, and cva/geom.py as the definition. The *_const walkers are covered through the tables they generate plus a direction-set check, not symbolically for every occupancy.",
+    technique="static analysis: constant-table audit against geometric definitions + MIR conformance of accessors + known-bits abstract interpretation"),
+ "C10": dict(level="other",
+    text="Closed writer set (who-may-write over all MIR bodies, private fields, no &mut handed out) plus a per-path symbolic lock-step proof for every writer of the position state: each state change XORs exactly the keys of the features it removes and adds, from one table per feature kind; hash getters read only the hash (and the en-passant key). Purity over all histories then follows by induction over writer calls, which is argued, not mechanised.",
+    note="Trusts MIR/callee resolution and the symbolic executor; the inductive step from per-writer preservation to arbitrary histories is a written argument.",
+    technique="static analysis: who-may-write rule + symbolic execution of every writer path (state change vs key XOR multiset)"),
+ "C11": dict(level="proof",
+    text="Exactly the property's equivalent formulation is decided: the 793 feature keys (tables discovered from the writers, values as const-evaluated by rustc) have no vanishing XOR of 1..4 distinct keys (all 314028 pair XORs hashed), and each key-table dimension is indexed by a direct cast of a distinct enum parameter whose variant count equals the array length.",
+    note="Trusts rustc const evaluation of the key constant and C10's lock-step result that features map to keys as assumed.",
+    technique="static analysis: exhaustive XOR-independence audit of compile-time constants + index-provenance rule on the writers' MIR"),
 }
